@@ -148,23 +148,25 @@ func (conn *tcpConn) OnPacket(fn func(*protocol.Packet, error)) {
 			defer verifhook.Point("conn.dispatcher:exit", verifhook.ID(conn))
 
 			for {
-				if conn.closed() {
+				select {
+				case <-conn.closeCh:
 					// consume all packet
-					if l := len(conn.packetCh); l > 0 {
-						for i := 0; i < l; i++ {
-							p := <-conn.packetCh
+					for {
+						select {
+						case p := <-conn.packetCh:
 							fn(p, nil)
+							continue
+						default:
 						}
 
+						break
 					}
 
 					fn(nil, errConnClosed)
 					return
+				case p := <-conn.packetCh:
+					fn(p, nil)
 				}
-
-				p := <-conn.packetCh
-
-				fn(p, nil)
 			}
 		}()
 	})
